@@ -72,8 +72,8 @@ def build(repo, canary=False, probes=None):
                    'impl Clone for %s { fn clone(&self) -> Self { *self } }\nimpl Copy for %s {}\nimpl PartialEq for %s { #[verifier::external_body] fn eq(&self, other: &Self) -> (r: bool) ensures r == (self.0 == other.0) { self.0 == other.0 } }\n'
                    % (T, T, T, T, T, T), 'stand-ins for the derives / conversions of the newtype (proved in unit GEN)')
             A.text(gen.type_spec_impls(T), 'spec impls for the newtype')
-        A.item(m.struct)
         A.item(src.item(r'struct ModelDelta\s*\{', name='ModelDelta'))
+        A.item(m.struct)
         A.text('type Model = %s;\n' % m.name, 'type alias (as in the emitted text)')
         # rule environments (the copies in the main module: the last occurrence of each) and body-less rule functions
         ext = src.text.find('unsafe extern "Rust"')
